@@ -419,7 +419,7 @@ def air_cov(ctx, st):
 
 
 def prog_C12(ctx):
-    res = generic(ctx, ['Dc4bcVerif.Props.C12', 'Dc4bcVerif.Props.C12Process', 'Dc4bcVerif.Props.C12Air', 'Dc4bcVerif.Props.C12AirOrder', 'Dc4bcVerif.Props.AirDkgSrc', 'Dc4bcVerif.Props.C12Seed', 'Dc4bcVerif.Props.C18Air'], 'airdiff', 'air', ['C12'], AIR_TRUSTED +
+    res = generic(ctx, ['Dc4bcVerif.Props.C12', 'Dc4bcVerif.Props.C12Process', 'Dc4bcVerif.Props.C12Air', 'Dc4bcVerif.Props.C12AirOrder', 'Dc4bcVerif.Props.C20AirMasterKey', 'Dc4bcVerif.Props.AirDkgSrc', 'Dc4bcVerif.Props.C12Seed', 'Dc4bcVerif.Props.C18Air'], 'airdiff', 'air', ['C12'], AIR_TRUSTED +
             ['translator: every write to and every use of the airgapped machine\'s in-memory base seed, and what dkg.InitDKGInstance does with the slice it is handed (Gen/SeedFacts.lean), regenerated on every run; frand.NewCustom / sha256 / the suite constructor not writing their argument is trusted and exercised by the second-ceremony restarts'],
             'ceremonies (3,2),(2,2) [thorough: +(4,3),(3,3)]; per ceremony one participant: restart before every operation, and (sampled in quick, all in thorough) kill-before-log and kill-after-log at every operation, plus one run restarting after every step; two clones fed the same operations; then a SECOND ceremony of the same participants handled by the same process: the same restart points inside it (sampled in quick), and a machine fed the second ceremony alone; a machine started on an EMPTY database (it keeps the seed it generated; the mnemonic it prints is captured) against a machine made with set_seed from that mnemonic: same seed, long-term key, commitments and share; the airdkg stream: every key-generation operation, and a machine stopped, reopened and replayed after every operation',
             cov_from_stats=air_cov)
@@ -435,11 +435,11 @@ def prog_C20(ctx):
     def cov(ctx, st):
         ctx.cov.update(evaluations=st['Ops'] + st['Reinits'], distinct_nontrivial=st['HashEditKinds'] + st['Scenarios'], exhaustive=False,
                        reinitialisations=st['Reinits'], hash_edits=st['HashEdits'], driver_notes=(st.get('Notes') or [])[:10])
-    res0 = generic(ctx, ['Dc4bcVerif.Props.C20', 'Dc4bcVerif.Props.C20Node', 'Dc4bcVerif.Props.C20Air', 'Dc4bcVerif.Props.C12', 'Dc4bcVerif.Props.C08'], 'reinitdiff', 'reinit', ['C20'],
+    res0 = generic(ctx, ['Dc4bcVerif.Props.C20', 'Dc4bcVerif.Props.C20Node', 'Dc4bcVerif.Props.C20Air', 'Dc4bcVerif.Props.C20AirOrder', 'Dc4bcVerif.Props.C20AirMasterKey', 'Dc4bcVerif.Props.C12', 'Dc4bcVerif.Props.C08'], 'reinitdiff', 'reinit', ['C20'],
             ['translator: the order in which CalcStartReInitDKGMessageHash writes the fields (Gen/NodeGlue.lean reinitHashOrder), regenerated on every run; order_matches_source is kernel-evaluated',
              'reinitdiff: a completed real ceremony (signing batches and junk on the board, incl. a forged decline every original node rejected) is re-initialised from a dump of its board on fresh nodes with new communication keys and fresh airgapped databases with the same mnemonics, through GenerateReDKGMessage (+ GetAdaptedReDKG on dumps stripped of self-confirmations), ReInitDKG, the reinit operation and the airgapped replay; every node must end signing-ready with the same participants, threshold and public polynomial, every machine with the same share, a batch signed afterwards must verify (prysm) under the ORIGINAL group key; the confirmation hash must be the same on every node and change under every single-field edit (the Lean model of the hashed byte string must agree on every edit)',
              'the airgapped side (Model/AirReinit.lean: handleReinitDKG over the handler model; Props/C20Air.lean): every reinit_dkg operation a real machine handles in these runs is written down for the model - a SHADOW machine (fresh database, same mnemonic) is handed the entries of the payload one by one, each compared with the model like any key-generation operation, and the model\'s reinitOp over those entries must give the real machine\'s answer (the public polynomial of operation_processed_successfully / error result / fatal) and the share it holds afterwards; re-initialised machines stopped, reopened and replayed, and machines that died inside the operation and are handed it again, are `stop` + the operation again; the translation of operations into the model\'s terms is harness code (see the airdkg stream)',
-             'assumed: SHA-1 collision resistance; %d rendering injective; Go\'s range order in the master-key step is taken to be the same in ceremony and re-initialisation (the deals step is covered by C12AirOrder.responses_order_irrelevant)'],
+             'assumed: SHA-1 collision resistance; %d rendering injective; Go\'s range orders: Props/C20AirOrder.lean reinit_reproduces_share_any_order (the deals steps in any order, the master-key step in any order provided the re-initialised machine answers it with an announcement at all - whether it does may depend on the order only through which refusal comes first), over C12AirOrder.responses_order_irrelevant and Props/C20AirMasterKey.lean (the examined responses never change the deals the verifiers hold; the key ring reads the deals only)'],
             'per scenario also: every re-initialised machine stopped, reopened and replayed, then a batch (must verify under the original group key), and the reinit operation handed over a second time after a kill between key ring and log; a fourth quick scenario whose junk holds a signing proposal posted before the end of the key generation (fix c405ec9); three ceremonies quick [(3,2) plain; (2,2) with signing batches and junk; (3,2) junk + 0.1.4 adaptation], seven thorough; per file: every header and participant field, and 7 fields of 12 (quick) or all (thorough) messages, messages of other rounds first',
             cov_from_stats=cov)
     # the airgapped side: the key-generation operations of the original ceremonies and every reinit_dkg operation of the new
